@@ -169,6 +169,69 @@ func c04Gen(r *RNG, tier string) []json.RawMessage {
 		}
 	}
 
+	// the all-columns default set on Column(0) BEFORE the table has its
+	// columns, rows added, then the default changed / unset / left alone, and
+	// own settings on some columns: every (early, late) pair, with the header
+	// absent, added first, or added after the rows
+	for early := 1; early <= 3; early++ {
+		for late := -1; late <= 3; late++ { // -1 = not touched again, 0 = unset (SetProperty(key, nil))
+			for hv := 0; hv < 3; hv++ {
+				ts := hostileGrid(3)
+				switch hv {
+				case 0:
+					ts.Header = nil
+				case 1:
+					ts.HeaderAt = len(ts.Rows)
+				}
+				ts.AlignEarly = map[int]int{0: early}
+				ts.Align = map[int]int{}
+				if late >= 0 {
+					ts.Align[0] = late
+				}
+				if (early+late+hv)%2 == 0 {
+					ts.Align[2] = 1 + (early+hv)%3 // an own setting on column 2 as well
+				}
+				add(ts, nextReg())
+			}
+		}
+	}
+	// own settings made early (the header's columns exist), then changed or unset at the end
+	for early := 1; early <= 3; early++ {
+		for late := 0; late <= 3; late++ {
+			ts := hostileGrid(3)
+			ts.AlignEarly = map[int]int{0: 1 + early%3, 1: early, 3: early}
+			ts.Align = map[int]int{1: late}
+			add(ts, nextReg())
+		}
+	}
+	// long runs of padding under every alignment: a cell of 63..300 display
+	// cells above short, empty and missing cells
+	for i, n := range longSizes {
+		for a := 0; a <= 3; a++ {
+			hd := []ItemSpec{Str("h"), Str("w")}
+			ts := TableSpec{Header: &hd, Rows: []RowSpec{
+				{Cells: []ItemSpec{Str(longText((i+a)%3, n)), Str("s")}},
+				{Cells: []ItemSpec{Str("ab"), Str(longText(i%3, n+1))}},
+				{Cells: []ItemSpec{Str("")}},
+			}, Align: map[int]int{}}
+			if a != 0 {
+				ts.Align[0] = a
+				ts.Align[2] = 1 + a%3
+			}
+			add(ts, []DecSpec{{Name: "ascii-simple"}, {Name: "none"}}[(i+a)%2])
+		}
+	}
+	// a declared width far beyond the text, and a declared height of many lines
+	for _, n := range []int{65, 130, 300} {
+		for a := 1; a <= 3; a++ {
+			ts := TableSpec{Rows: []RowSpec{
+				{Cells: []ItemSpec{sizedItem("abc", intp(n), nil), Str("x")}},
+				{Cells: []ItemSpec{Str("y"), sizedItem("t", nil, intp(n))}},
+			}, Align: map[int]int{0: a}}
+			add(ts, DecSpec{Name: "ascii-simple"})
+		}
+	}
+
 	// random grids with random alignments, sized items, registered and custom decorations
 	n := 330
 	if tier == "thorough" {
@@ -186,6 +249,20 @@ func c04Gen(r *RNG, tier string) []json.RawMessage {
 			}
 		}
 		ts.Align = c04RandAlign(r, nc)
+		switch {
+		case r.Pct(20):
+			lateEnrich(r, &ts, func(r *RNG) ItemSpec {
+				if r.Pct(30) {
+					return sizedRandItem(r)
+				}
+				return widerText(r)
+			})
+		case r.Pct(35):
+			enrichSpec(r, &ts, sizedRandItem)
+			if len(ts.AlignEarly) > 0 && r.Pct(30) {
+				ts.Align[0] = 0 // the early default is removed again
+			}
+		}
 		d := nextReg()
 		if r.Pct(25) {
 			d = randDecoration(r)
@@ -205,6 +282,8 @@ func init() {
 		Rule: "the C03 tables crossed with alignment assignments (Column(n).SetProperty(align.PropertyType, Left|Right|Center) for column 0 = all-columns default and each own column) " +
 			"and with items of generated types implementing TerminalCellWidth() and/or Height(): declared width in {-1, 0, smaller, equal, larger (odd and even slack)}, declared height in {-1, 0, 1, fewer, equal, more}; " +
 			"every assignment of {unset,L,R,C} to column 0 and each column for 1, 2 and 3 columns (4^2 + 4^3 + 4^4 = 336) on a fixed hostile grid; every width class x height class on 7 texts, in body and header; random grids to 4x5 with random alignments, sized items, registered and custom decorations; " +
+			"alignment histories: the column-0 default set before the columns exist, rows added, then the default changed, unset (SetProperty(key, nil)) or left alone, for every (early, late) pair with the header absent / first / last, and own settings made early then changed or unset; staged renders through one reused wrapper with shape-preserving changes in between (late cells, same-count second header) on a fifth of the random grids; paddings of 63..300 blanks under every alignment, declared widths / heights of 65..300; " +
+			"the expected view (texts, sizes, effective alignments) is computed from the SPEC alone (TableSpec.SpecView), not read back from the table under test; " +
 			"multi-line items declaring a width below one of their lines are outside the statement (tagged excluded:..., still compared with the model); a case is non-trivial when the table has at least one column and no excluded item",
 		Exhaustive: "all 336 alignment assignments for <= 3 columns on the fixed grid; all width-class x height-class pairs on 7 body texts and 2 header texts",
 		Gen:        c04Gen,
